@@ -57,6 +57,7 @@ _GENERIC = ("a particular interleaving, a crash or fault at a particular point, 
             "or two cooperating sites that each look fine alone - your choice; prefer something a reviewer would wave through and a "
             "routine test run would not touch.")
 FLAVOUR["d"] = {("C%02d" % i): _GENERIC for i in range(1, 21)}
+FLAVOUR["e"] = {("C%02d" % i): _GENERIC + " Avoid the most obvious spot: look for a second, less travelled place in the code where the property can be broken." for i in range(1, 21)}
 
 
 def main():
